@@ -120,7 +120,13 @@ func (s ExploreRecursive) Explore(n datamodel.Node, p datamodel.PathSegment) (Se
 	switch limit.mode {
 	case RecursionLimit_Depth:
 		if limit.depth < 2 {
-			return s.replaceRecursiveEdge(nextSelector, nil), nil
+			// The limit is used up: drop the edges. What remains of a union may still contain
+			// edges further down, so it stays under this (exhausted) recursion, which drops them too.
+			rest := s.replaceRecursiveEdge(nextSelector, nil)
+			if rest == nil {
+				return nil, nil
+			}
+			return ExploreRecursive{s.sequence, rest, limit, s.stopAt}, nil
 		}
 		return ExploreRecursive{s.sequence, s.replaceRecursiveEdge(nextSelector, s.sequence), RecursionLimit{RecursionLimit_Depth, limit.depth - 1}, s.stopAt}, nil
 	case RecursionLimit_None:
